@@ -236,7 +236,7 @@ OnRet(s, e) ==
     IF F.ph # "fncall" \/ F.fnp.f # e.f THEN Flag(s, {"CONF"}, "return of a user function that was not called")
     ELSE IF ~(\E c \in Candidates(s.stack, s.cur) : c.e = "ret" /\ c.ok = e.ok) THEN Flag(s, {"CONF"}, "a user function of the catalogue returns what its kind cannot return")
     ELSE [s EXCEPT !.stack = AfterRet(s.stack, e.ok, e.val, e.id),
-                   !.fnf = IF ~e.ok /\ CanFail(F.fnp.k) THEN @ \cup {[f |-> e.f, loc |-> IF F.fnp.k = "try" THEN F.fnp.loc ELSE F.loc]} ELSE @]
+                   !.fnf = IF ~e.ok /\ CanFail(F.fnp.k) THEN @ \cup {[f |-> e.f, loc |-> IF F.fnp.k = "try" THEN F.fnp.loc ELSE F.loc, j |-> IF F.fnp.k = "try" THEN F.fnp.ob.i ELSE 0]} ELSE @]
 
 SetAsSeq(S) == LET RECURSIVE f(_) f(T) == IF T = {} THEN <<>> ELSE LET x == CHOOSE y \in T : TRUE IN <<x>> \o f(T \ {x}) IN f(S)
 
